@@ -18,6 +18,7 @@ import (
 	"reflect"
 	"strings"
 	"sync"
+	"unsafe"
 
 	"github.com/modern-go/reflect2"
 )
@@ -29,8 +30,14 @@ type FieldAccessor struct {
 	Type   reflect2.Type
 	Alias  string
 	Field  reflect2.StructField
+	Offset uintptr // of the embedded struct(s) the field belongs to, within the outermost struct
 	Encode EncodeHandler
 	Decode DecodeHandler
+}
+
+// Pointer returns the address of the field in the struct at p.
+func (f *FieldAccessor) Pointer(p unsafe.Pointer) unsafe.Pointer {
+	return f.Field.UnsafeGet(unsafe.Pointer(uintptr(p) + f.Offset))
 }
 
 func stripOptions(tag string) string {
@@ -62,7 +69,7 @@ func fieldAlias(tag reflect.StructTag, name string, tags []string) string {
 	return name
 }
 
-func _getFields(t reflect2.StructType, tags []string, mapping map[string]struct{}, fields []FieldAccessor) []FieldAccessor {
+func _getFields(t reflect2.StructType, tags []string, mapping map[string]struct{}, fields []FieldAccessor, offset uintptr) []FieldAccessor {
 	n := t.NumField()
 	for i := 0; i < n; i++ {
 		f := t.Field(i)
@@ -74,7 +81,8 @@ func _getFields(t reflect2.StructType, tags []string, mapping map[string]struct{
 			continue
 		case reflect.Struct:
 			if f.Anonymous() {
-				fields = _getFields(ft.(reflect2.StructType), tags, mapping, fields)
+				// the fields of an embedded struct lie at the embedded struct's offset
+				fields = _getFields(ft.(reflect2.StructType), tags, mapping, fields, offset+f.Offset())
 				continue
 			}
 		}
@@ -95,6 +103,7 @@ func _getFields(t reflect2.StructType, tags []string, mapping map[string]struct{
 		field.Type = ft
 		field.Alias = name
 		field.Field = f
+		field.Offset = offset
 		typ := ft.Type1()
 		if field.Encode = GetEncodeHandler(typ); field.Encode == nil {
 			continue
@@ -110,7 +119,7 @@ func _getFields(t reflect2.StructType, tags []string, mapping map[string]struct{
 }
 
 func getFields(t reflect.Type, tag ...string) []FieldAccessor {
-	return _getFields(reflect2.Type2(t).(reflect2.StructType), tag, map[string]struct{}{}, nil)
+	return _getFields(reflect2.Type2(t).(reflect2.StructType), tag, map[string]struct{}{}, nil, 0)
 }
 
 var structFieldMapCache sync.Map
